@@ -2,6 +2,7 @@ package rules
 
 import (
 	"fmt"
+	"math"
 	"go/types"
 	"strings"
 
@@ -49,19 +50,17 @@ func runC18(c *Ctx) {
 			for _, pa := range firstPath(f, sp.Block()) {
 				env := core.NewEnv(c.P, pa)
 				a := env.Term(g.Call.Args[0])
-				ok := a.Op == "index" && a.Args[0].String() == "param:ips"
+				ok := a.Op == "index" && len(f.Params) > 0 && a.Args[0].String() == "param:"+f.Params[0].Name()
 				R.Check(ok, "R18.1", fn+"#go-arg", sp.Pos(), fn, "the goroutine receives ips[i] by value", "the goroutine receives "+a.String())
 			}
-			rps, _ := core.ReturnPaths(c.P, cl, 2000)
+			// the goroutine's paths with the helpers of the package opened (a collector type with a locked record method, ...)
 			np := 0
-			for _, rp := range rps {
-				if rp.Ret.Block().Comment == "recover" {
-					continue
-				}
+			cases := map[bool]bool{}
+			for _, ip := range InlinedPaths(c.P, cl, inlineOpts{pkg: core.FuncPkg(cl), stop: func(h *ssa.Function) bool { return h.Signature.Results().Len() == 2 }}) {
 				np++
 				failed := false
 				var lookupArg *core.Term
-				for _, a := range rp.Atoms {
+				for _, a := range ip.Atoms {
 					nn := a.Norm()
 					if nn.Cond.Op == "binop" && nn.Cond.Name == "==" && nn.Cond.Args[1].IsConst("nil") && nn.Cond.Args[0].Op == "extract" {
 						failed = !nn.Sign
@@ -71,12 +70,11 @@ func runC18(c *Ctx) {
 						}
 					}
 				}
-				var updates []*ssa.MapUpdate
-				for _, b := range rp.Path.Blocks {
-					for _, in := range b.Instrs {
-						if mu, ok := in.(*ssa.MapUpdate); ok {
-							updates = append(updates, mu)
-						}
+				cases[failed] = true
+				var updates []Event
+				for _, ev := range ip.Events {
+					if ev.Kind == "mapupdate" {
+						updates = append(updates, ev)
 					}
 				}
 				key := fmt.Sprintf("%s#path[failed=%v]", core.FuncName(cl), failed)
@@ -84,16 +82,17 @@ func runC18(c *Ctx) {
 					R.Check(len(updates) == 0, "R18.2", key, cl.Pos(), core.FuncName(cl), "a failed lookup writes nothing", "a failed lookup still writes the result map")
 					continue
 				}
-				ok := len(updates) == 1 && lookupArg != nil && lookupArg.String() == "param:ip"
+				own := "param:" + cl.Params[0].Name()
+				ok := len(updates) == 1 && lookupArg != nil && lookupArg.String() == own
 				if ok {
-					k := rp.Env.Term(updates[0].Key)
-					v := rp.Env.Term(updates[0].Value)
-					ok = k.String() == "conv[string](param:ip)" && v.Op == "extract" && v.Name == "0" && v.Args[0].Op == "call" && len(v.Args[0].Args) > 0 && v.Args[0].Args[0].String() == "param:ip"
-					R.Check(ok, "R18.1", key, cl.Pos(), core.FuncName(cl), "outputIPs[string(ip)] = names looked up for that same ip", "map entry is "+k.String()+" → "+v.String()+": key and lookup argument are not the goroutine's own ip")
+					k, v := updates[0].Elems[0], updates[0].Val
+					ok = k.String() == "conv[string]("+own+")" && v.Op == "extract" && v.Name == "0" && v.Args[0].Op == "call" && len(v.Args[0].Args) > 0 && v.Args[0].Args[0].String() == own
+					R.Check(ok, "R18.1", key, cl.Pos(), core.FuncName(cl), "result[string(ip)] = names looked up for that same ip", "map entry is "+k.String()+" → "+v.String()+": key and lookup argument are not the goroutine's own ip")
 				} else {
 					R.Fail("R18.1", key, cl.Pos(), core.FuncName(cl), "successful lookup does not store exactly one entry keyed by its own ip")
 				}
 			}
+			np = len(cases)
 			R.Floor("R18.1:goroutine-paths", np, 2)
 		}
 		rps, _ := core.ReturnPaths(c.P, f, 2000)
@@ -183,36 +182,35 @@ func runC18(c *Ctx) {
 		}
 		ninst++
 		fn := core.FuncName(f)
-		rps, _ := core.ReturnPaths(c.P, f, 2000)
-		for _, rp := range rps {
+		// inlined paths: the cache consultation may sit in a typed lookup helper of the package
+		for _, rp := range InlinedPaths(c.P, f, inlineOpts{pkg: core.FuncPkg(f)}) {
 			found, fsign := atomTrue(rp.Atoms, func(t *core.Term) bool {
 				return t.Op == "extract" && t.Name == "1" && strings.Contains(t.Args[0].String(), ".Get(")
 			})
 			var cbCalled, setCalled bool
-			for _, b := range rp.Path.Blocks {
-				for _, in := range b.Instrs {
-					call, ok := in.(*ssa.Call)
-					if !ok {
-						continue
-					}
-					if p, ok := call.Common().Value.(*ssa.Parameter); ok && p.Name() == "cb" {
-						cbCalled = true
-					}
-					if cal := call.Common().StaticCallee(); cal != nil && cal.Name() == "Set" && strings.Contains(cal.String(), "go-cache") {
-						setCalled = true
+			for _, ev := range rp.Events {
+				if ev.Kind != "call" {
+					continue
+				}
+				if ci, ok := ev.Instr.(*ssa.Call); ok {
+					if pv, ok := ci.Common().Value.(*ssa.Parameter); ok && pv.Parent() == f {
+						cbCalled = true // the callback parameter is invoked
 					}
 				}
+				if strings.HasSuffix(ev.Callee, ".Set") && strings.Contains(ev.Callee, "cache") {
+					setCalled = true
+				}
 			}
-			key := fmt.Sprintf("cache.GetWithExpiration#path[%s]", rp.Path.String())
+			key := fmt.Sprintf("cache.GetWithExpiration#path[%s]", rp.Desc)
 			switch {
 			case !found:
-				R.FailPath("R18.3", key, rp.Ret.Pos(), fn, "a path does not consult the cache first", rp.Path.String())
+				R.FailPath("R18.3", key, rp.Ret.Pos(), fn, "a path does not consult the cache first", rp.Desc)
 			case fsign:
 				ok := !cbCalled && !setCalled && rp.Results[1].IsConst("nil") && strings.Contains(rp.Results[0].String(), ".Get(")
 				R.Check(ok, "R18.3", "cache.GetWithExpiration#hit", rp.Ret.Pos(), fn, "a hit returns the stored value without calling the callback", fmt.Sprintf("on a hit: callback called=%v, Set called=%v, returns %s", cbCalled, setCalled, rp.Results[0].String()))
 			default:
 				f1, s1 := atomTrue(rp.Atoms, func(t *core.Term) bool {
-					return t.Op == "binop" && t.Name == "==" && t.Args[1].IsConst("nil") && t.Args[0].Op == "extract" && strings.Contains(t.Args[0].String(), "param:cb")
+					return t.Op == "binop" && t.Name == "==" && t.Args[1].IsConst("nil") && t.Args[0].Op == "extract" && t.Args[0].Name == "1" && t.Args[0].Args[0].Op == "call" && strings.Contains(t.Args[0].Args[0].String(), "param:")
 				})
 				okErr := f1 && (s1 == setCalled)
 				R.Check(cbCalled && okErr, "R18.3", fmt.Sprintf("cache.GetWithExpiration#miss[err==nil:%v]", s1), rp.Ret.Pos(), fn, "on a miss the callback runs and its result is stored exactly when err == nil", fmt.Sprintf("on a miss: callback called=%v, err tested=%v, err==nil=%v, Set called=%v: failures must never be cached and successes must be", cbCalled, f1, s1, setCalled))
@@ -265,59 +263,58 @@ func runC18(c *Ctx) {
 		R.Fail("R18.4", "publicip.handleRequest#anchor", 0, "", "anchor publicip.handleRequest no longer resolves")
 	} else {
 		fn := core.FuncName(hr)
-		rps := expandedReturnPaths(c.P, hr, 0) // the interpretation of the answer may have been moved into a helper that handleRequest tail-calls
+		// inlined paths (the interpretation of the answer may live in helpers: a tail-called parser, a status predicate) and
+		// interval bounds on the status code instead of one spelling of the range test
 		n4xx, nbad := 0, 0
-		for _, rp := range rps {
-			if rp.Results[1].IsConst("nil") {
+		exact := false
+		for _, rp := range InlinedPaths(c.P, hr, inlineOpts{pkg: core.FuncPkg(hr)}) {
+			if len(rp.Results) != 2 || rp.Results[1].IsConst("nil") {
 				continue
 			}
-			if len(rp.Atoms) == 0 {
-				continue
-			}
-			last := rp.Atoms[len(rp.Atoms)-1].Norm()
 			perm := strings.Contains(rp.Results[1].String(), "backoff.Permanent(")
-			ls := last.Cond.String()
-			switch {
-			case strings.Contains(ls, ".StatusCode < 500") && last.Sign:
-				n4xx++
-				R.Check(perm, "R18.4", fn+"#client-error", rp.Ret.Pos(), fn, "a 4xx answer is final for the provider (Permanent)", "a 4xx answer is retried: client errors must be final for the provider")
-			case strings.Contains(ls, "net.ParseIP") && last.Sign:
-				nbad++
-				R.Check(perm, "R18.4", fn+"#invalid-body", rp.Ret.Pos(), fn, "an invalid body is final for the provider (Permanent)", "an invalid body is retried: it must be final for the provider")
-			}
-		}
-		// no other outcome of a completely received answer that may be a client error is retried
-		for _, rp := range rps {
-			if rp.Results[1].IsConst("nil") || strings.Contains(rp.Results[1].String(), "backoff.Permanent(") {
-				continue
-			}
-			received, outside := 0, false
+			// the status code term on this path
+			var status *core.Term
+			received := 0
+			invalidBody := false
 			for _, a := range rp.Atoms {
 				nn := a.Norm()
+				nn.Cond.Walk(func(x *core.Term) bool {
+					if x.Op == "field" && x.Name == "StatusCode" && status == nil {
+						status = x
+					}
+					return true
+				})
 				s := nn.Cond.String()
 				if nn.Sign && (strings.HasSuffix(s, ".Do(param:client, param:req)#1 == nil)") || strings.Contains(s, "io.ReadAll(") && strings.HasSuffix(s, "#1 == nil)")) {
 					received++
 				}
-				if !nn.Sign && (strings.Contains(s, ".StatusCode >= 400") || strings.Contains(s, ".StatusCode < 500")) {
-					outside = true
+				if nn.Sign && strings.Contains(s, "net.ParseIP") && strings.HasSuffix(s, "== nil)") {
+					invalidBody = true
 				}
 			}
-			if received >= 2 && !outside {
-				R.FailPath("R18.4", fn+"#client-error-retried", rp.Ret.Pos(), fn, "an answer that was received completely and may carry a 4xx status is reported with a retryable error ("+rp.Results[1].String()+"): client errors must be final for the provider", rp.Path)
+			bd := bounds{lo: math.Inf(-1), hi: math.Inf(1)}
+			if status != nil {
+				bd = atomBounds(rp.Atoms, status.Key())
+			}
+			is4xx := bd.loK && bd.hiK && bd.lo >= 400 && bd.hi <= 499
+			may4xx := !(bd.hiK && bd.hi < 400) && !(bd.loK && bd.lo >= 500)
+			switch {
+			case is4xx:
+				n4xx++
+				if bd.lo == 400 && bd.hi == 499 {
+					exact = true
+				}
+				R.Check(perm, "R18.4", fn+"#client-error", rp.Ret.Pos(), fn, "a 4xx answer is final for the provider (Permanent)", "a 4xx answer is retried: client errors must be final for the provider")
+			case invalidBody:
+				nbad++
+				R.Check(perm, "R18.4", fn+"#invalid-body", rp.Ret.Pos(), fn, "an invalid body is final for the provider (Permanent)", "an invalid body is retried: it must be final for the provider")
+			case received >= 2 && may4xx && !perm:
+				R.FailPath("R18.4", fn+"#client-error-retried", rp.Ret.Pos(), fn, "an answer that was received completely and may carry a 4xx status is reported with a retryable error ("+rp.Results[1].String()+"): client errors must be final for the provider", rp.Desc)
 			}
 		}
 		R.Floor("R18.4:4xx-paths", n4xx, 1)
 		R.Floor("R18.4:invalid-body-paths", nbad, 1)
-		// the 4xx test really is 400 <= status < 500
-		lo := false
-		for _, rp := range rps {
-			for _, a := range rp.Atoms {
-				if s := a.Norm().Cond.String(); strings.Contains(s, ".StatusCode >= 400") {
-					lo = true
-				}
-			}
-		}
-		R.Check(lo, "R18.4", fn+"#4xx-range", hr.Pos(), fn, "client errors are 400 <= status < 500", "the client-error range test changed")
+		R.Check(exact, "R18.4", fn+"#4xx-range", hr.Pos(), fn, "client errors are 400 <= status <= 499", "no path treats exactly the range 400..499 as a client error: the client-error range test changed")
 	}
 	// ---- R18.5
 	checkClosures(c)
